@@ -885,6 +885,31 @@ def table_equals(tt, fn):
     return True, '%d rows' % len(table)
 
 
+def through_tuple(body, place):
+    """`(_t.i)` where `_t = (a, b, ..)` is built once in this body (a scrutinee like `match (self.unique, self.rf_under)`): returns the operand
+    that became component i together with the rest of the projection, else None"""
+    if not place[1]:
+        return None
+    e0 = place[1][0]
+    if not (isinstance(e0, list) and e0[0] == 'F' and str(e0[1] if len(e0) > 1 else '').isdigit()):
+        return None
+    defs = [d for d in body.defs().get(place[0], []) if d[2] == 'assign' and not d[3]['p'][1]]
+    if len(defs) != 1 or len(body.defs().get(place[0], [])) != 1:
+        return None
+    rv = defs[0][3]['rv']
+    if rv['k'] != 'agg' or rv.get('ak') != 'tuple':
+        return None
+    i = int(e0[1])
+    if i >= len(rv['ops']):
+        return None
+    op = rv['ops'][i]
+    q = op_place(op)
+    if q is None:
+        return (op, [])
+    rest = place[1][1:]
+    return ({'c': [q[0], list(q[1]) + list(rest)]}, rest)
+
+
 def direct_field(body, operand, max_hops=4):
     """If `operand` is (a copy of) a direct read of a struct field, return (field name, owner ADT, negated?)"""
     neg = False
@@ -893,6 +918,10 @@ def direct_field(body, operand, max_hops=4):
         p = op_place(op)
         if p is None:
             return None
+        tt_ = through_tuple(body, p)
+        if tt_ is not None:
+            op = tt_[0]
+            continue
         fs = [e for e in p[1] if isinstance(e, list) and e[0] == 'F']
         if fs:
             return fs[-1][2], (fs[-1][3] if len(fs[-1]) > 3 else ''), neg
@@ -921,6 +950,10 @@ def direct_def(body, operand, max_hops=6):
         if p is None:
             return ('const', op_const(op))
         if p[1] and p[1] != ['*']:
+            tt_ = through_tuple(body, p)
+            if tt_ is not None:
+                op = tt_[0]
+                continue
             return ('place', p)
         defs = body.defs().get(p[0], [])
         if len(defs) != 1:
